@@ -18,13 +18,18 @@ PROP = "C07"
 
 CTORS = ["Field", "from_raw", "makeField", "Field_of_AnyArray", "MultiField.from_raw", "MultiField.from_dict",
          "makeField_dict"]
-SRC_KINDS = ["fresh", "view_of_base", "noncontig", "zero_d", "complex", "fortran"]
+SRC_KINDS = ["fresh", "view_of_base", "noncontig", "zero_d", "complex", "fortran", "subclass", "memmap",
+             "recarray_view", "masked"]
 DERIVES = ["cast_domain", "real", "imag", "conjugate", "neg", "at", "extract", "getitem_key"]
 HANDLES = ["val", "raw", "asnumpy", "val.asnumpy", "val.val", "val_slice", "val_view", "val_reshape", "val_T",
            "val_real", "val_rw", "asnumpy_rw", "val_flatten_index", "to_dict_val"]
 OPS = ["makeOp", "Adder", "GaussianEnergy", "ScalingLike"]
 WRITES = ["setitem", "setslice", "iadd", "np_add_out", "fill", "sort", "copyto", "imul_scalar", "np_multiply_out_any",
           "put", "itemset_via_flat"]
+
+
+class TrackedArray(np.ndarray):
+    """A user-defined ndarray subclass (like np.memmap / np.matrix / astropy Quantity)."""
 
 
 class Violation(Exception):
@@ -71,6 +76,21 @@ def src_array(kind, seed, shape):
         return base[::2], shape
     if kind == "fortran":
         return np.asfortranarray(rng.normal(size=shape)), shape
+    if kind == "subclass":
+        return rng.normal(size=shape).view(TrackedArray), shape
+    if kind == "memmap":
+        import os
+        import tempfile
+        fd, fn = tempfile.mkstemp(dir="/dev/shm", prefix="verif-c07-")
+        os.close(fd)
+        m = np.memmap(fn, dtype=np.float64, mode="w+", shape=shape)
+        m[...] = rng.normal(size=shape)
+        os.unlink(fn)
+        return m, shape
+    if kind == "recarray_view":
+        return rng.normal(size=shape).view(np.recarray), shape
+    if kind == "masked":
+        return np.ma.MaskedArray(rng.normal(size=shape)), shape
     return rng.normal(size=shape), shape
 
 
